@@ -45,6 +45,9 @@ Rules applied to copied text (all line preserving, all counted in the report):
       { let i = r13_i; let x = &E[r13_i]; r13_i = r13_i + 1;` (definition of slice::Iter + Enumerate).
   R21 `for x in E.trigger_events(ARGS) {` -> `let r21_v = E.trigger_events_vec(ARGS); for x in r21_it: r21_v.iter() {`
       (iterating over the collected results; the stand-in `trigger_events_vec` returns the actions as a Vec).
+  R24 `for x in E.iter_mut() {` / `for (i, x) in E.iter_mut().enumerate() {` -> index loop with `let x = &mut E[i]`.
+  R26 `assert!(c, "msg")` -> `crate::shim::rt_assert(c)` (requires c).  R27 `panic!("msg")` -> `return
+      crate::shim::rt_unreachable()` (requires false).  Both turn "this never fires" into a proof obligation.
   R22 `debug!(..);` statements are removed.   R23 `x.clone()` -> `x.clone_of()` (result equals the receiver).
   R19 a file-level `const` of the same file that a verified body names, and that the template does not
       bring in itself, is copied in front of the container.
@@ -605,11 +608,15 @@ class Extractor:
                 hdr = src.src[ks:bo]
                 mfor = re.match(r"for\s+(\w+)\s+in\s+(.+?)\.\.(.+?)\s*$", hdr, re.S)
                 mzip = re.match(r"for\s*\(\s*(\w+)\s*,\s*(\w+)\s*\)\s+in\s+(.+?)\.iter_mut\(\)\.zip\((.+?)\.iter\(\)\)\s*$", hdr, re.S)
+                mitm = re.match(r"for\s+(\w+)\s+in\s+(.+?)\.iter_mut\(\)\s*$", hdr, re.S)
+                mitme = re.match(r"for\s*\(\s*(\w+)\s*,\s*(\w+)\s*\)\s+in\s+(.+?)\.iter_mut\(\)\.enumerate\(\)\s*$", hdr, re.S)
                 menum = re.match(r"for\s*\(\s*(\w+)\s*,\s*(\w+)\s*\)\s+in\s+(.+?)\.iter\(\)\.enumerate\(\)\s*$", hdr, re.S)
                 # I4 placeholders that make loop annotations independent of the loop's surface form:
                 #   $i = iterations completed (at the loop head), $k = index of the element the body is working
                 #   on, $n = the bound
-                if mzip:
+                if mitm or mitme:
+                    ph = {"$i": "r24_i", "$k": "(r24_i - 1)", "$n": "r24_n"}
+                elif mzip:
                     ph = {"$i": "r16_i", "$k": "(r16_i - 1)", "$n": "r16_n"}
                 elif menum:
                     ph = {"$i": "r13_i", "$k": "(r13_i - 1)", "$n": "r13_n"}
@@ -659,6 +666,31 @@ class Extractor:
                     for il in (decr or ["%s    decreases r7_n - r7_i" % ind]):
                         self.out.emit(il)
                     self.out.emit_src(src, k, "%s{ let %s = r7_i; r7_i = r7_i + 1;" % (ind, x))
+                    begin_n = n
+                elif mitm or mitme:
+                    # R24: desugar `for x in E.iter_mut() {` / `for (i, x) in E.iter_mut().enumerate() {`
+                    if src.line_of(ks) != k:
+                        raise LostAnchor("R24: multi-line for header in fn %s" % name)
+                    ind = l[:len(l) - len(l.lstrip())]
+                    if mitme:
+                        xi, xv, ex = mitme.group(1), mitme.group(2), mitme.group(3).strip()
+                    else:
+                        xi, xv, ex = None, mitm.group(1), mitm.group(2).strip()
+                    self.hit("R24.for_iter_mut")
+                    rec["edits"].append("R24: `%s` desugared to while" % hdr.strip())
+                    self.out.emit_src(src, k, "%slet mut r24_i: usize = 0; let r24_n: usize = %s.len();" % (ind, ex))
+                    self.out.emit_src(src, k, "%swhile r24_i < r24_n" % ind)
+                    kw = "invariant_except_break" if any(il.strip() == "invariant_except_break" for il in inv) else "invariant"
+                    body = [il for il in inv if il.strip() and not il.strip().startswith("invariant")
+                            and not il.strip().startswith("decreases")]
+                    self.out.emit("%s    %s" % (ind, kw))
+                    self.out.emit("%s        r24_i <= r24_n, r24_n == %s.len()," % (ind, ex))
+                    for il in body:
+                        self.out.emit(il)
+                        self.hit("I4.contract_lines")
+                    self.out.emit("%s    decreases r24_n - r24_i" % ind)
+                    self.out.emit_src(src, k, "%s{ %slet %s = &mut %s[r24_i]; r24_i = r24_i + 1;" %
+                                      (ind, ("let %s = r24_i; " % xi) if xi else "", xv, ex))
                     begin_n = n
                 elif mzip:
                     # R16: desugar `for (a, b) in X.iter_mut().zip(Y.iter()) {`
@@ -774,6 +806,29 @@ class Extractor:
         def overlaps(a, b):
             return any(a < e and s < b for s, e, _, _ in edits)
 
+        # R26: `assert!(COND, "msg");` -> `crate::shim::rt_assert(COND);` (requires COND: the assertion never fires)
+        for m in re.finditer(r"\bassert!\s*\(", code[p_open:p_close]):
+            po = p_open + m.end() - 1
+            pc = match_close(code, po, "(", ")")
+            inner_code, inner = code[po + 1:pc], text[po + 1:pc]
+            depth, cut = 0, None
+            for j, ch in enumerate(inner_code):
+                if ch in "([{":
+                    depth += 1
+                elif ch in ")]}":
+                    depth -= 1
+                elif ch == "," and depth == 0:
+                    cut = j
+                    break
+            cond = inner[:cut] if cut is not None else inner
+            nl = text.count("\n", p_open + m.start(), pc + 1)
+            edits.append((p_open + m.start(), pc + 1, "crate::shim::rt_assert(%s%s)" % (" ".join(cond.split()), "\n" * nl), "R26"))
+        # R27: `panic!("msg");` -> `return crate::shim::rt_unreachable();` (requires false: the line is never reached)
+        for m in re.finditer(r"\bpanic!\s*\(", code[p_open:p_close]):
+            po = p_open + m.end() - 1
+            pc = match_close(code, po, "(", ")")
+            nl = text.count("\n", p_open + m.start(), pc + 1)
+            edits.append((p_open + m.start(), pc + 1, "return crate::shim::rt_unreachable(%s)" % ("\n" * nl), "R27"))
         # R22: `debug!( .. );` statements (log output) are removed
         for m in re.finditer(r"\bdebug!\s*\(", code[p_open:p_close]):
             po = p_open + m.end() - 1
